@@ -54,6 +54,13 @@ checks.update({
    note="randx user-code randomness cannot be intercepted; checked for distinctness only."),
 })
 
+checks.update({
+ "C17": dict(level="model_checking", engine="SEQ", ref="DESIGN.md §5 C17",
+   technique="exhaustive enumeration (iterative deepening) of all operation sequences up to a depth over <=2 pushed requests on the real provider with a lock-step model; every started authorization is carried through redemption and compared with the pushed values",
+   text="Every sequence of push (6 variants incl. failed authentication, header/body client mismatch, request containing request_uri) / use(request_uri, right or wrong client, 10 conflicting extra parameters) / use(unknown or foreign-prefix URI) / plain authorize / advance up to depth 4 (5 thorough), for enforcement on/off and default/custom prefix. A request_uri starts at most one authorization, only for its client, only before expiry; the resulting redirect, state, response delivery, stored form values, token scope/audience/client, PKCE binding and ID-token nonce equal the pushed values.",
+   note="Survival of a request_uri after a refused attempt and parameters that were not pushed at all are not pinned by the statement (recorded as notes)."),
+})
+
 # properties not (yet) claimed: reason
 not_applicable = {
 }
@@ -73,7 +80,7 @@ man = {
  },
  "engines": [
   {"name": "HIST", "path": "h/fam.go", "serves_properties": ["C01", "C04", "C08", "C09"], "kind_free_text": "explicit-state breadth-first search over API histories of the real provider, lock-step reference model, worker subprocesses, global dedup on canonical store dump"},
-  {"name": "SEQ", "path": "h/c03.go", "serves_properties": ["C03", "C16"], "kind_free_text": "exhaustive bounded enumeration of operation sequences on the real provider"},
+  {"name": "SEQ", "path": "h/c03.go", "serves_properties": ["C03", "C16", "C17"], "kind_free_text": "exhaustive bounded enumeration of operation sequences on the real provider"},
   {"name": "ENUM", "path": "h/c02.go h/c05.go h/c06.go h/c12.go", "serves_properties": ["C02", "C05", "C06", "C12"], "kind_free_text": "exhaustive enumeration of finite input/configuration/history-position products, each case executed on a fresh real provider and judged by an independent reference predicate"},
  ],
  "checks": [],
